@@ -440,7 +440,7 @@ def dom_name(rng, prefixes):
 
 def dom_value(rng):
     r = rng.random()
-    if r < 0.8:
+    if r < 0.93:
         return gen.adv_text(rng, 3, plain=False)
     return gen.adv_text(rng, 2, plain=False) + rng.choice(CTRL + ["\t", "\n", "\r", "\x7f", "\x85", "\ud7ff", "\ue000", "\ufffd"])
 
@@ -457,8 +457,8 @@ def random_named_tree(rng, depth=0, prefixes=None):
             locals_.add(loc)
             attrs.append([k, v])
     for _ in range(rng.choice([0, 0, 1, 1, 2])):
-        p = rng.choice(["p", "q", "esri", "xml", "xmlns", "é", "1x", probe_name(rng), ""])
-        v = rng.choice(["http://x", "urn:y", "", "a b", dom_value(rng), "http://www.w3.org/2000/xmlns/"])
+        p = rng.choice(["p", "q", "esri", "p", "q", "e-1", "xml", "xmlns", "é", "1x", probe_name(rng), ""])
+        v = rng.choice(["http://x", "urn:y", "http://x", "urn:y", "a b", "", dom_value(rng), "http://www.w3.org/2000/xmlns/"])
         add("xmlns:" + p, v)
         if v and p not in ("xml", "xmlns"):
             prefixes.append(p)
